@@ -546,7 +546,22 @@ def env_std(W, n=None):
     key = "_env_base"
     if not hasattr(W, key):
         setattr(W, key, family(W, "C05", "quick") + family(W, "C11", "quick") + family(W, "C03", "quick"))
-    return envelope_family(W, getattr(W, key), n)
+    return envelope_family(W, getattr(W, key), n) + grpc_family(W, getattr(W, key), max(n // 2, 60))
+
+
+def grpc_family(W, base, n):
+    """Scenarios once more with the service reached the way Envoy reaches it: over a gRPC connection to server.Server
+    (listener, interceptor chain, registered handler); what is judged is what arrives at the client, and - as the proxy does -
+    an answer lets the request through iff its status code is OK. The discovery outages are always among them."""
+    out = []
+    must = [sc for sc in discovery_family(W)]
+    for sc in must + sample(W, base, n):
+        v = json.loads(json.dumps(sc))
+        v["id"] = sc["id"] + "/grpc"
+        v["cfg"]["grpc"] = True
+        v["tags"] = list(v.get("tags", [])) + ["grpc"]
+        out.append(v)
+    return out
 
 
 def subsecond_family(W):
